@@ -36,7 +36,7 @@ PROFILES = {
                 autorestart=['false', 'false', 'unexpected', 'true', 'true'], p_autostart=0.4, p_late_boot=0.4,
                 quiesce=60.0, latencies=[{'lo': 0.0002, 'hi': 0.02}, {'lo': 0.001, 'hi': 0.3}, {'lo': 0.01, 'hi': 1.5},
                                          {'lo': 0.05, 'hi': 3.0}]),
-    'C03': dict(BASE, max_faults=3, min_faults=0, ops={'start_application': 3, 'restart_application': 2,
+    'C03': dict(BASE, no_restart_storm=True, max_faults=3, min_faults=0, ops={'start_application': 3, 'restart_application': 2,
                                                          'restart_sequence': 1}, max_ops=5,
                 fault_weights={'crash': 1, 'restart': 2, 'child_exit': 2},
                 conciliation_strategies=['SENICIDE', 'INFANTICIDE', 'USER', 'STOP'],
@@ -46,14 +46,14 @@ PROFILES = {
                 p_wait_exit=0.3, p_sequenced=0.95, max_seq=3, n_programs=[2, 3, 4, 4], n_groups=[1, 2, 3],
                 p_app_sequenced=0.9, max_app_seq=3, p_autostart=0.0, supvisors_failure_strategies=['CONTINUE'],
                 autorestart=['false']),
-    'C04': dict(BASE, max_faults=3, min_faults=0, ops={'start_application': 3, 'restart_application': 1,
+    'C04': dict(BASE, no_restart_storm=True, max_faults=3, min_faults=0, ops={'start_application': 3, 'restart_application': 1,
                                                          'start_process': 2, 'restart_process': 1, 'stop_application': 1,
                                                          'start_any_process': 1, 'disable': 0.5, 'enable': 0.5},
                 max_ops=8, fault_weights={'crash': 1, 'restart': 3, 'child_exit': 1},
                 loads=[0, 10, 20, 30, 40, 50, 60, 70], p_shared_node=0.6, p_absent=0.3, p_disabled=0.2,
                 n_inst=[2, 3, 4, 5], n_programs=[2, 3, 4], n_groups=[2, 3, 3], max_app_seq=1, p_app_sequenced=0.9,
                 child_kinds=SIMPLE_CHILDREN, p_numprocs=0.25, supvisors_failure_strategies=['CONTINUE']),
-    'C14': dict(BASE, max_faults=2, min_faults=0, ops={'start_application': 4, 'restart_application': 1,
+    'C14': dict(BASE, no_restart_storm=True, max_faults=2, min_faults=0, ops={'start_application': 4, 'restart_application': 1,
                                                          'stop_application': 2}, max_ops=8,
                 fault_weights={'crash': 1, 'restart': 2, 'child_exit': 1},
                 loads=[0, 5, 10, 15, 20, 25, 30, 40], p_shared_node=0.7, p_absent=0.2, p_disabled=0.1,
